@@ -70,6 +70,10 @@ void DynamicConstructorDataGlobal::reloadPoints(std::function<int(int)> getNumPo
             if (i != -1) t.loaded[i] = true;
         }
     }
+    for(auto &t : tensors){ // complete tensors are marked by an empty vector, see addTensor() and addNewNode()
+        if (std::all_of(t.loaded.begin(), t.loaded.end(), [](bool b)->bool{ return b; }))
+            t.loaded.clear();
+    }
 }
 
 void DynamicConstructorDataGlobal::clearTesnors(){
